@@ -335,11 +335,13 @@ func (v *Validator) record(kind string, chid datatransfer.ChannelID, res datatra
 }
 
 func (v *Validator) ValidatePush(chid datatransfer.ChannelID, sender peer.ID, voucher datamodel.Node, baseCid cid.Cid, selector datamodel.Node) (datatransfer.ValidationResult, error) {
+	v.n.ValBase = baseCid
 	res, err := v.New("push", chid)
 	v.record("push", chid, res, err)
 	return res, err
 }
 func (v *Validator) ValidatePull(chid datatransfer.ChannelID, receiver peer.ID, voucher datamodel.Node, baseCid cid.Cid, selector datamodel.Node) (datatransfer.ValidationResult, error) {
+	v.n.ValBase = baseCid
 	res, err := v.New("pull", chid)
 	v.record("pull", chid, res, err)
 	return res, err
@@ -385,6 +387,7 @@ type Node struct {
 
 	Vals     map[datatransfer.TypeIdentifier]*Validator
 	ValNew   func(kind string, chid datatransfer.ChannelID) (datatransfer.ValidationResult, error)
+	ValBase  cid.Cid // base CID of the request being validated (set right before ValNew is called)
 	ValRest  func(chid datatransfer.ChannelID, st datatransfer.ChannelState) (datatransfer.ValidationResult, error)
 	ValCalls []ValCall
 
@@ -432,6 +435,7 @@ func (w *World) NewNode(r *RunCtx, name string, cfg NodeCfg) *Node {
 // Start builds a fresh manager (new life) on the node's current disk.
 func (n *Node) Start() bool {
 	simrt.SetLabel(n.Name)
+	delete(StoppedLabels, n.Name) // a new manager: its state machines run
 	if n.LifeStart == nil {
 		n.LifeStart = map[int]int{}
 	}
@@ -529,6 +533,7 @@ func (n *Node) Crash(at int) bool {
 // time pass when tight is set - for at most two simulated minutes. It reports whether Stop returned.
 func (n *Node) StopTracked(tight bool) bool {
 	m := n.Mgr
+	StoppedLabels[n.Name] = true
 	c := n.r.OpE(n.Name, "Manager.Stop", func() error { return m.Stop(context.Background()) })
 	if tight {
 		for i := 0; i < 20000 && !c.Returned; i++ {
